@@ -1,3 +1,2 @@
 package main
 
-func runKV(tr *Tracer, s *Scenario) bool    { panic("kv: not implemented") }
